@@ -1,4 +1,45 @@
-import SfxModel.ConvSpec
+import SfxProofs.ToFloat
+import SfxProofs.FromFloat
+/-
+  C05 — Float conversions are correctly rounded (ties to even) in both directions.
+  A float is its bit pattern; `floatExact F b` is its exact value `num·2^e` (`none` for NaN/∞); `floatToGrid F b f` is the grid value
+  nearest to it (ties to even, `rneScaled`), unbounded; `rneFloat F f x` is the IEEE-754 round-to-nearest-even float of `x / 2^f`
+  (textbook definition) whose nearest-ness / ties-to-even is itself proved (`rneFloat_nearest`, `rneFloat_ties_even`).
+-/
 namespace Sfx.C05
-theorem placeholder : True := trivial
+open Sfx.ToFloatPf Sfx.FromFloatPf
+
+def C05_statement : Prop :=
+  ∀ F : FloatFmt, (F = f32 ∨ F = f64) → ∀ L : Layout, L.valid →
+    -- float → fixed, finite input: one exact rounded result `E`, the four policies (+ plain) decide overflow on `E`
+    (∀ b : Nat, b < 2 ^ F.nbits → ∀ E : Int, floatToGrid F b L.f = some E →
+      L.overflowingFromFloat F b = .ok (L.ovf E) false ∧ L.checkedFromFloat F b = .ok (L.chk E) false ∧
+      L.saturatingFromFloat F b = .ok (L.clamp E) false ∧ L.wrappingFromFloat F b = .ok (L.wrap E) false ∧
+      L.fromFloat F b = .ok (L.wrap E) (!decide (inRange L E))) ∧
+    -- float → fixed, non-finite input: rejected as documented
+    (∀ b : Nat, b < 2 ^ F.nbits → floatExact F b = none →
+      L.checkedFromFloat F b = .ok none false ∧ L.overflowingFromFloat F b = .panic ∧ L.wrappingFromFloat F b = .panic ∧
+      L.fromFloat F b = .panic ∧
+      ((F.parts b).2.2 ≠ 0 → L.saturatingFromFloat F b = .panic) ∧
+      ((F.parts b).2.2 = 0 → L.saturatingFromFloat F b = .ok (if (F.parts b).1 then L.min else L.max) false)) ∧
+    -- fixed → float: the IEEE-754 round-to-nearest-even result, incl. subnormals and overflow to infinity
+    (∀ x : Int, inRange L x → L.toFloat F x = rneFloat F L.f x)
+
+theorem holds : C05_statement := by
+  intro F hF L hL
+  refine ⟨fun b hb E hE => ⟨overflowingFromFloat_spec F hF L hL b hb E hE, checkedFromFloat_spec F hF L hL b hb E hE,
+    saturatingFromFloat_spec F hF L hL b hb E hE, wrappingFromFloat_spec F hF L hL b hb E hE, fromFloat_spec F hF L hL b hb E hE⟩,
+    fun b hb hnf => nonfinite_spec F hF L hL b hb hnf, fun x hx => toFloat_eq_rneFloat F hF L hL x hx⟩
+
+/-- the specification `rneFloat` really is round-to-nearest, ties-to-even: no finite float is closer, and on a tie with a different
+float the chosen one has an even pattern (scaled integer distances; see `SfxProofs/ToFloatNearest.lean`) -/
+theorem rneFloat_is_nearest_even (F : FloatFmt) (hF : F = f32 ∨ F = f64) (f : Nat) (x : Int)
+    (vr : Int × Int) (hr : floatVal F (rneFloat F f x) = some vr) (b : Nat) (vb : Int × Int) (hb : floatVal F b = some vb) :
+    scaledErr F f x vr ≤ scaledErr F f x vb ∧
+    (scaledVal F f vb ≠ scaledVal F f vr → scaledErr F f x vr = scaledErr F f x vb → rneFloat F f x % 2 = 0) :=
+  ⟨rneFloat_nearest F hF f x vr hr b vb hb, fun hne htie => rneFloat_ties_even F hF f x vr hr b vb hb hne htie⟩
+
+/-- non-vacuity: the largest finite f32 is finite, NaN is not, and an all-fraction 128-bit layout is valid -/
+example : (floatExact f32 0x7F7FFFFF).isSome ∧ floatExact f32 0x7FC00000 = none ∧ (⟨false, 128, 128⟩ : Layout).valid := by decide
+
 end Sfx.C05
